@@ -9,3 +9,5 @@ import DateutilVerif.Properties.C02
 #print axioms C02.parse_render_monthname
 #print axioms C02.parse_render_ampm
 #print axioms C02.parse_render_hms_letters
+#print axioms C02.convertyear_window_inv
+#print axioms C02.parse_render_numeric
